@@ -454,7 +454,7 @@ http_req_sec_chk(const uint8_t *http_hdr, size_t hdr_size, uint32_t method_code)
 int
 http_parse_req_line(const uint8_t *http_hdr, size_t hdr_size,
     http_req_line_data_p req_data) {
-	const uint8_t *line, *ptm, *pspace;
+	const uint8_t *line, *ptm, *pspace, *pquery;
 	size_t line_size, tm;
 
 	if (NULL == http_hdr || 10 >= hdr_size || NULL == req_data)
@@ -510,13 +510,19 @@ http_parse_req_line(const uint8_t *http_hdr, size_t hdr_size,
 			if (NULL == ptm) {
 				ptm = pspace; // = (req_data->uri + req_data->uri_size);
 			}
+			/* authority ends at '/' or '?' (RFC 3986 3.2). */
+			pquery = mem_chr_ptr(req_data->host,
+			    req_data->uri, req_data->uri_size, '?');
+			if (NULL != pquery && pquery < ptm) {
+				ptm = pquery;
+			}
 			req_data->host_size = (size_t)(ptm - req_data->host);
 		} else {
 			ptm = req_data->uri;
 		}
 		/* abs_path */
 		/* Skip slash~s from head. */
-		while (ptm < (pspace - 1) && '/' == ptm[1]) {
+		while (ptm < (pspace - 1) && '/' == ptm[0] && '/' == ptm[1]) {
 			ptm ++;
 		}
 		req_data->abs_path = ptm;
